@@ -89,6 +89,29 @@ def valid_calls(rng):
     out.append(_c('mahotas.thin', E("np.zeros((4, 4), bool)")))
     out.append(_c('mahotas.polygon.convexhull', E("np.eye(5, dtype=bool)")))
     out.append(_c('mahotas.polygon.convexhull', E("np.zeros((3, 3), bool)")))
+
+    # (seeded C10-r4m1) templates / structuring elements / kernels LONGER than the image: on one axis only (fitting along the other),
+    # on both, by exactly one and by several — inside the documented domain ("templates of matching dimensionality")
+    for _ in range(3):
+        h, w = R(2, 9), R(2, 9)
+        for th, tw in ((h + R(2, 4), R(1, w)), (R(1, h), w + R(2, 4)), (h + 1, w), (h, w + 1), (h + R(1, 3), w + R(1, 3)), (h, w)):
+            dt = rng.choice(['uint8', 'int32', 'bool', 'float64'])
+            img = f"(np.random.RandomState({R(0, 1 << 20)}).rand({h},{w}) * 3).astype(np.{dt if dt != 'bool' else 'bool_'})"
+            tmpl = f"(np.random.RandomState({R(0, 1 << 20)}).rand({th},{tw}) * 3).astype(np.{dt if dt != 'bool' else 'bool_'})"
+            out.append(_c('mahotas.find', E(img), E(tmpl)))
+            if dt != 'bool':
+                out.append(_c('mahotas.template_match', E(img), E(tmpl)))
+        th, tw = rng.choice([(h + 2, 1), (1, w + 3), (h + 1, w + 1)])
+        fp = f"np.ones(({th | 1},{tw | 1}))"
+        img8 = f"(np.random.RandomState({R(0, 1 << 20)}).rand({h},{w}) * 9).astype(np.uint8)"
+        out.append(_c('mahotas.rank_filter', E(img8), E(fp), V(0)))
+        out.append(_c('mahotas.median_filter', E(img8), E(fp)))
+        out.append(_c('mahotas.mean_filter', E(img8.replace('np.uint8', 'np.float64')), E(fp)))
+        out.append(_c('mahotas.convolve', E(img8.replace('np.uint8', 'np.float64')), E(fp), mode=V(rng.choice(['reflect', 'nearest', 'constant', 'ignore']))))
+        out.append(_c('mahotas.hitmiss', E(f"(np.random.RandomState(3).rand({h},{w}) > .5).astype(np.uint8)"), E(f"np.ones(({th | 1},{tw | 1}), np.uint8)")))
+    # (seeded C11-r4m2) signed images are in the domain of the histogram / threshold functions only when non-negative; sparse LARGE
+    # values (positive) are valid for cooccurence-free functions: fullhistogram/otsu/rc on uint32 images with one huge value are NOT
+    # listed (they allocate max()+1 bins); see degenerate_calls for the negative ones.
     return out
 
 
@@ -116,4 +139,38 @@ def degenerate_calls(rng):
     out.append((_c('mahotas.label', E("np.ones((3, 3), bool)"), E("np.zeros((3, 3), bool)")), [['Bc', 'all-false']]))
     out.append((_c('mahotas.regmax', E("np.ones((3, 3), np.uint8)"), E("np.zeros((3, 3), np.uint8)")), [['Bc', 'all-false']]))
     out.append((_c('mahotas.labeled.is_same_labeling', E("np.zeros(0, int)"), E("np.arange(4)")), [['labeled0', 'empty']]))
+
+    # (seeded C11-r4m1) label maps in every integer dtype with values around 2^31 / 2^32 / 2^63 and INT_MIN: they wrap to negative (or
+    # small) values when narrowed to C int — every consumer of a label map
+    big = [2 ** 31, 2 ** 31 + 5, 2 ** 32 - 1, 2 ** 32, 3 * 2 ** 31, 2 ** 63 - 1, 2 ** 63, -2 ** 31, -2 ** 31 - 1, -1]
+    dts = {'uint32': 2 ** 32, 'int64': 2 ** 63, 'uint64': 2 ** 64, 'int32': 2 ** 31, 'uint8': 256, 'int16': 2 ** 15}
+    arr = "np.arange(12, dtype=np.uint8).reshape(3, 4)"
+    combos = [(dt, v) for dt, lim in dts.items() for v in big if (-lim if dt.startswith('int') else 0) <= v < lim]
+    for dt, v in rng.sample(combos, min(len(combos), 14)) + [('uint32', 2 ** 31), ('int64', 3 * 2 ** 31), ('uint64', 2 ** 63)]:
+        lab = f"np.array([[0, 1, 2, 1], [1, {v}, 0, 2], [2, 2, 1, 0]], dtype=np.{dt})"
+        cls = [['labeled', f'{dt}:{v}']]
+        out.append((_c('mahotas.labeled.labeled_sum', E(arr), E(lab)), cls))
+        out.append((_c('mahotas.labeled.labeled_max', E(arr), E(lab)), cls))
+        out.append((_c('mahotas.labeled.labeled_min', E(arr), E(lab)), cls))
+        out.append((_c('mahotas.labeled.labeled_size', E(lab)), cls))
+        out.append((_c('mahotas.labeled.bbox', E(lab)), cls))
+        out.append((_c('mahotas.center_of_mass', E(arr), E(lab)), cls))
+        out.append((_c('mahotas.labeled.remove_regions', E(lab), E("[1]")), cls))
+        out.append((_c('mahotas.labeled.relabel', E(lab)), cls))
+        out.append((_c('mahotas.labeled.is_same_labeling', E(lab), E(lab)), cls))
+        out.append((_c('mahotas.labeled.borders', E(lab)), cls))
+    # (seeded C11-r4m2) signed images with ONE negative value of large magnitude, anywhere (single pixel, last pixel, each corner):
+    # functions that index tables by pixel value
+    for dt, v in (('int32', -2 ** 30), ('int64', -2 ** 30), ('int32', -1), ('int16', -32768), ('int8', -128), ('int64', -2 ** 40), ('int32', -2 ** 31)):
+        h, w = R(3, 9), R(3, 9)
+        for (y, x) in {(0, 0), (h - 1, w - 1), (0, w - 1), (h - 1, 0), (R(0, h - 1), R(0, w - 1))}:
+            img = f"(lambda a: (a.__setitem__(({y},{x}), {v}), a)[1])((np.arange({h * w}).reshape({h},{w}) % 5).astype(np.{dt}))"
+            cls = [['f', f'{dt}:negative-at-{y}-{x}']]
+            for d in (0, 1, 2, 3):
+                out.append((_c('mahotas.features.texture.cooccurence', E(img), V(d)), cls))
+            out.append((_c('mahotas.features.haralick', E(img)), cls))
+            out.append((_c('mahotas.features.lbp', E(img), V(1), V(8)), cls))
+            out.append((_c('mahotas.fullhistogram', E(img)), cls))
+            out.append((_c('mahotas.otsu', E(img)), cls))
+            out.append((_c('mahotas.rc', E(img)), cls))
     return out
